@@ -1,8 +1,12 @@
-//! Conformance harness (see /verif/CONVENTIONS.md).
-//!   <bin> replay <model> <cases.ndjson> --summary <out.json>
-//!   <bin> record <model> --seed S --out <trace.ndjson> --summary <out.json>
+//! Conformance harness of the header-ex group (C28..C32); see /verif/CONVENTIONS.md.
+//!   h-hx replay <model> <cases.ndjson> --summary <out.json>
+//!   h-hx record <model> --seed S --out <trace.ndjson> --summary <out.json>
 
 use h_common::{tool_error, Args};
+
+mod common;
+mod decode;
+mod server;
 
 fn main() {
     let args = Args::from_env();
@@ -10,6 +14,8 @@ fn main() {
     let model = args.pos(1).to_string();
     h_common::quiet_panics();
     match (mode.as_str(), model.as_str()) {
+        ("replay", "hxserver") => server::replay(&args),
+        ("replay", "hxdecode") => decode::replay(&args),
         _ => tool_error(&format!("unknown mode/model {mode}/{model}")),
     }
 }
